@@ -34,6 +34,43 @@ pub fn count_waker() -> (Arc<CountWaker>, Waker) {
 
 // ---- Counter -----------------------------------------------------------------------------------
 
+thread_local! {
+    /// what a re-entrant waker looks at when it is woken: a handle of the counter under test
+    static REENTRANT: std::cell::RefCell<Option<Counter>> = const { std::cell::RefCell::new(None) };
+}
+
+/// A waker whose `wake()` does at once what the woken task would do: ask the counter again. It
+/// records the answer (available?, total) of that re-entrant query.
+pub struct ReentrantWaker {
+    pub wakes: AtomicUsize,
+    /// 0 = nothing recorded, 1 = available() was false, 2 = true; total in the upper bits
+    pub seen: AtomicUsize,
+}
+impl ReentrantWaker {
+    fn observe(&self) {
+        self.wakes.fetch_add(1, Ordering::SeqCst);
+        REENTRANT.with(|r| {
+            // `try_borrow`: a wake-up issued while the harness itself holds the slot is only counted
+            if let Ok(g) = r.try_borrow() {
+                if let Some(c) = g.as_ref() {
+                    let (_cw, w) = count_waker();
+                    let cx = Context::from_waker(&w);
+                    let a = c.available(&cx);
+                    self.seen.store((c.total() << 2) | if a { 2 } else { 1 }, Ordering::SeqCst);
+                }
+            }
+        });
+    }
+}
+impl Wake for ReentrantWaker {
+    fn wake(self: Arc<Self>) {
+        self.observe();
+    }
+    fn wake_by_ref(self: &Arc<Self>) {
+        self.observe();
+    }
+}
+
 #[derive(Clone, Copy, Debug, Serialize, Deserialize, PartialEq)]
 pub enum COp {
     /// acquire a guard through handle `h`
@@ -66,21 +103,38 @@ pub fn check_counter(c: &CounterCase) -> CaseResult {
 
 fn check_counter_inner(c: &CounterCase) -> CaseResult {
     let cap = c.capacity;
-    let mut handles = vec![Counter::new(cap)];
-    let mut guards: Vec<CounterGuard> = vec![];
+    // kept in `Sut`: leaked instead of dropped while a panic of the counter unwinds
+    let mut handles = vec![vcore::Sut::new(Counter::new(cap))];
+    let mut guards: Vec<vcore::Sut<CounterGuard>> = vec![];
     let wakers = [count_waker(), count_waker()];
+    let re = Arc::new(ReentrantWaker { wakes: AtomicUsize::new(0), seen: AtomicUsize::new(0) });
+    let re_waker = Waker::from(re.clone());
+    REENTRANT.with(|r| *r.borrow_mut() = Some((*handles[0]).clone()));
+    struct ClearSlot;
+    impl Drop for ClearSlot {
+        fn drop(&mut self) {
+            if !std::thread::panicking() {
+                REENTRANT.with(|r| *r.borrow_mut() = None);
+            } else {
+                REENTRANT.with(|r| std::mem::forget(r.borrow_mut().take()));
+            }
+        }
+    }
+    let _clear = ClearSlot;
+    let mut reentrant_checked = false;
     // model
     let mut live = 0usize;
     // (waker index, its wake count when it was answered "unavailable")
     let mut waiting: Option<(usize, usize)> = None;
     let mut obs = Obs::new();
-    let (mut reached_cap, mut released_after_cap, mut used) = (false, false, [false, false]);
+    let (mut reached_cap, mut released_after_cap, mut used) = (false, false, [false, false, false]);
     let mut wake_checked = false;
+    let wake_count = |w: usize| if w < 2 { wakers[w].0 .0.load(Ordering::SeqCst) } else { re.wakes.load(Ordering::SeqCst) };
     for (step, op) in c.ops.iter().enumerate() {
         match *op {
             COp::Get { h } => {
                 let i = vcore::pick(h, handles.len());
-                guards.push(handles[i].get());
+                guards.push(vcore::Sut::new(handles[i].get()));
                 live += 1;
             }
             COp::DropGuard { k } => {
@@ -90,7 +144,8 @@ fn check_counter_inner(c: &CounterCase) -> CaseResult {
                 let i = vcore::pick(k, guards.len());
                 // the wake-up belongs to the very drop that brings the count below the capacity
                 // (an earlier one would find the counter still full)
-                let before = waiting.map(|(w, _)| wakers[w].0 .0.load(Ordering::SeqCst));
+                let before = waiting.map(|(w, _)| wake_count(w));
+                re.seen.store(0, Ordering::SeqCst);
                 drop(guards.remove(i));
                 let crossing = live == cap; // live goes cap -> cap-1: count is now below the capacity
                 live -= 1;
@@ -99,31 +154,42 @@ fn check_counter_inner(c: &CounterCase) -> CaseResult {
                 }
                 if crossing {
                     if let Some((w, _at)) = waiting.take() {
-                        let now = wakers[w].0 .0.load(Ordering::SeqCst);
+                        let now = wake_count(w);
                         wake_checked = true;
                         vensure!(now > before.unwrap_or(0), "C17/counter-lost-wake",
                             "step {}: a guard drop brought the count below capacity {} but the task most recently answered 'unavailable' (waker {}) was not woken by it; ops {:?}",
                             step, cap, w, c.ops);
+                        if w == 2 {
+                            // the woken task asks again at once: the count is below the capacity now
+                            let seen = re.seen.load(Ordering::SeqCst);
+                            if seen != 0 {
+                                reentrant_checked = true;
+                                let (avail, total) = (seen & 3 == 2, seen >> 2);
+                                vensure!(avail && total == live, "C17/counter-wake-too-early",
+                                    "step {}: the task woken by the guard drop that brought the count below capacity {} asked again from inside its wake-up and was answered available() = {}, total() = {} (live guards: {}); ops {:?}",
+                                    step, cap, avail, total, live, c.ops);
+                            }
+                        }
                     }
                 }
             }
             COp::Avail { h, w } => {
                 let i = vcore::pick(h, handles.len());
-                let w = (w % 2) as usize;
+                let w = (w % 3) as usize;
                 used[w] = true;
-                let cx = Context::from_waker(&wakers[w].1);
+                let cx = Context::from_waker(if w < 2 { &wakers[w].1 } else { &re_waker });
                 let got = handles[i].available(&cx);
                 let want = live < cap;
                 vensure!(got == want, "C17/counter-available",
                     "step {}: available() = {} with {} live guards and capacity {}; ops {:?}", step, got, live, cap, c.ops);
                 if !got {
-                    waiting = Some((w, wakers[w].0 .0.load(Ordering::SeqCst)));
+                    waiting = Some((w, wake_count(w)));
                 }
             }
             COp::CloneHandle { h } => {
                 let i = vcore::pick(h, handles.len());
-                let n = handles[i].clone();
-                handles.push(n);
+                let n = (*handles[i]).clone();
+                handles.push(vcore::Sut::new(n));
             }
             COp::DropHandle { h } => {
                 if handles.len() > 1 {
@@ -147,6 +213,7 @@ fn check_counter_inner(c: &CounterCase) -> CaseResult {
     }
     obs.nontrivial = reached_cap && released_after_cap;
     obs.label_if(wake_checked, "wake-on-release-checked");
+    obs.label_if(reentrant_checked, "re-entrant-wake-checked");
     obs.label_if(used[0] && used[1], "two-wakers");
     obs.label_if(handles.len() > 1, "cloned");
     obs.label_if(live > cap, "over-capacity");
@@ -231,12 +298,13 @@ fn check_waker_inner(c: &WakerCase) -> CaseResult {
 
 // ---- generators --------------------------------------------------------------------------------
 
-const C_ALPHA: [COp; 7] = [
+const C_ALPHA: [COp; 8] = [
     COp::Get { h: 0 },
     COp::DropGuard { k: 0 },
     COp::DropGuard { k: 65535 },
     COp::Avail { h: 65535, w: 0 },
     COp::Avail { h: 0, w: 1 },
+    COp::Avail { h: 0, w: 2 },
     COp::CloneHandle { h: 0 },
     COp::DropHandle { h: 0 },
 ];
@@ -246,7 +314,7 @@ fn cop() -> impl Strategy<Value = COp> {
     prop_oneof![
         4 => any::<u16>().prop_map(|h| COp::Get { h }),
         4 => any::<u16>().prop_map(|k| COp::DropGuard { k }),
-        4 => (any::<u16>(), 0u8..2).prop_map(|(h, w)| COp::Avail { h, w }),
+        4 => (any::<u16>(), 0u8..3).prop_map(|(h, w)| COp::Avail { h, w }),
         1 => any::<u16>().prop_map(|h| COp::CloneHandle { h }),
         1 => any::<u16>().prop_map(|h| COp::DropHandle { h }),
         1 => any::<u16>().prop_map(|h| COp::Total { h }),
@@ -277,14 +345,14 @@ pub fn counter_case_from_bytes(data: &[u8]) -> CounterCase {
     CounterCase { capacity, ops }
 }
 
-const RULE_C: &str = "operation sequences over {acquire guard, drop a live guard, available(waker 0|1), clone/drop a counter handle, total} applied to actix_utils::counter::Counter and to a reference model (live count; most recent 'unavailable' waker must have been woken by the time a drop takes the count from capacity to capacity-1; extra wake-ups allowed); non-trivial = the count reached the capacity and a guard was dropped afterwards; distinct by (capacity, ops)";
+const RULE_C: &str = "operation sequences over {acquire guard, drop a live guard, available(waker 0|1|a re-entrant waker that asks the counter again from inside its wake-up), clone/drop a counter handle, total} applied to actix_utils::counter::Counter and to a reference model (live count; most recent 'unavailable' waker must be woken by the very drop that takes the count from capacity to capacity-1, and a task that asks again from inside that wake-up is answered 'available' with the new total; extra wake-ups allowed); non-trivial = the count reached the capacity and a guard was dropped afterwards; distinct by (capacity, ops)";
 const RULE_W: &str = "operation sequences over {register(w0|w1), wake, take+wake, take+drop} on LocalWaker vs a model (register returns whether one was registered; wake wakes the most recently registered waker exactly once); non-trivial = both wakers used and a registered waker was woken";
 
 pub fn run(ctx: &Ctx) {
     ctx.assume("wake-ups are observed with counting wakers; for Counter extra wake-ups are accepted (the property only forbids lost ones), for LocalWaker counts must match exactly");
     ctx.run_corpus::<CounterCase>("counter", check_counter);
     ctx.run_corpus::<WakerCase>("localwaker", check_waker);
-    // exhaustive Counter: all sequences up to length 7 (thorough 9) over a 7-op alphabet, capacities 0..3
+    // exhaustive Counter: all sequences up to length 7 (thorough 9) over an 8-op alphabet, capacities 0..3
     let max_len = ctx.tier.pick(7u32, 9u32);
     let k = C_ALPHA.len() as u64;
     let per_cap: u64 = (0..=max_len).map(|l| k.pow(l)).sum();
